@@ -107,6 +107,12 @@ def statements():
     add('filter(raw_sql) int', lambda: _filter_raw(T, 2), [1, 2])
     add('filter(raw_sql) float', lambda: _filter_raw(T, 2.5), [1, 2, 3])
     add('filter(raw_sql) other int', lambda: _filter_raw(T, 5), [1, 2, 3, 4, 5])
+    # a statement as it is usually written: indented, starting on a new line, in either letter case - passed through as it is
+    def layout_of_the_text():
+        a = 2
+        return (_ids(db.select('  select id from Item where p = $a')), _ids(db.select('\n    SELECT id\n    FROM Item\n    WHERE p = $a\n')), db.exists('\n  select 1 from Item where p = $a'),
+                db.exists('  1 from Item where p = $(a + 100)'), db.get('\tselect name from Item where p = $a'), _ids(db.select('Select id from Item where p = $a')), _ids(db.select('  id from Item where p = $a')))
+    add('leading whitespace, new lines and letter case of select', layout_of_the_text, ([3], [3], True, False, 'n2', [3], [3]))
     # entry points
     def get_exists_execute():
         a = 4
